@@ -46,7 +46,27 @@ def clone(node):
 
 # ------------------------------------------------------------------------------- canonical text
 class _Flatten(ast.NodeTransformer):
-    """nested f-strings without format spec are spliced into the enclosing one; adjacent constants merge"""
+    """nested f-strings without format spec are spliced into the enclosing one; adjacent constants merge;
+    `"sep".join((a, b, c))` over a literal tuple / list is the f-string `{a}sep{b}sep{c}`"""
+
+    def visit_Call(self, node):
+        self.generic_visit(node)
+        f = node.func
+        if isinstance(f, ast.Attribute) and f.attr == "join" and isinstance(f.value, ast.Constant) and isinstance(f.value.value, str) \
+                and len(node.args) == 1 and not node.keywords and isinstance(node.args[0], (ast.Tuple, ast.List)) \
+                and not any(isinstance(x, ast.Starred) for x in node.args[0].elts):
+            vals = []
+            for i, x in enumerate(node.args[0].elts):
+                if i and f.value.value:
+                    vals.append(ast.Constant(value=f.value.value))
+                if isinstance(x, ast.JoinedStr):
+                    vals.extend(x.values)
+                elif isinstance(x, ast.Constant) and isinstance(x.value, str):
+                    vals.append(x)
+                else:
+                    vals.append(ast.FormattedValue(value=x, conversion=-1, format_spec=None))
+            return self.visit_JoinedStr(ast.copy_location(ast.JoinedStr(values=vals), node))
+        return node
 
     def visit_JoinedStr(self, node):
         self.generic_visit(node)
